@@ -2,6 +2,7 @@
 C02 — helper lemmas: representation of a history by loaded sections, search correctness.
 -/
 import PdfVerif.Spec.Xref
+import PdfVerif.Lemmas.XrefGen
 
 namespace PdfVerif.Xref
 
@@ -165,7 +166,7 @@ theorem findIndex_none_of_below {ranges : List (Nat × Nat)} {bound n acc : Nat}
       have := h.1
       simp only at this
       omega
-    simp [findIndex, this, ih h.2]
+    simp [findIndex_cons, this, ih h.2]
 
 theorem getPos_none_of_below {s : Section} {bound n : Nat} (h : s.below bound = true) (hn : bound ≤ n) :
     s.getPos n = none := by
